@@ -83,10 +83,19 @@ def side_case(seed):
     x = rand_spectrum_tensor(rng, rows + cols, decay)
     if rng.random() < 0.3:
         x = x + 1j * rand_spectrum_tensor(rng, rows + cols, decay)
-    which = rng.choice(['init-maxrank', 'init-threshold', 'ortho-maxrank', 'ortho-listrank', 'exact'])
+    which = rng.choice(['init-maxrank', 'init-threshold', 'ortho-maxrank', 'ortho-listrank', 'exact', 'cores-maxrank', 'exact-int'])
     desc = dict(which=which, rows=rows, cols=cols, decay=decay, x=lib.jsonable(x))
     nrm = float(np.linalg.norm(x))
     try:
+        if which == 'exact-int':
+            # integer-typed arrays denote the same tensors (the decomposition must not work in the integer dtype)
+            xi = np.rint(3 * np.real(x)).astype(rng.choice([np.int64, np.int32]))
+            desc['x'] = lib.jsonable(xi)
+            t = TT(xi)
+            err = float(np.linalg.norm(dense(t.cores) - xi))
+            if err > 1e-12 * max(1.0, float(np.linalg.norm(xi))):
+                return 'threshold 0 / unbounded rank is not exact for an integer-typed array: err %.2e' % err, desc
+            return None, desc
         if which == 'exact':
             t = TT(x)
             if rng.random() < 0.3:
@@ -112,6 +121,18 @@ def side_case(seed):
             if err > bound * (1 + 1e-9) + 1e-12:
                 return 'threshold bound violated: err %.3e > %.3e (threshold*norm*sqrt(#discarded))' % (err, bound), desc
             return None, desc
+        elif which == 'cores-maxrank':
+            # TT(list of cores, max_rank=...) truncates as well; the cap may be a Python int, a NumPy integer or a per-bond list
+            t0 = TT(x)
+            form = rng.choice(['int', 'npint', 'list'])
+            r = rng.randint(1, 3)
+            caps = [r] * (order - 1) if form != 'list' else [rng.randint(1, 3) for _ in range(order - 1)]
+            arg = r if form == 'int' else (np.int64(r) if form == 'npint' else [1] + caps + [1])
+            keep_arg = list(arg) if form == 'list' else arg
+            desc['max_rank'] = str(arg)
+            t = TT([c.copy() for c in t0.cores], max_rank=arg)
+            if form == 'list' and list(arg) != keep_arg:
+                return 'the per-bond list handed in as max_rank was modified: %s -> %s' % (keep_arg, arg), desc
         else:
             t = TT(x)
             if which == 'ortho-maxrank':
@@ -122,7 +143,10 @@ def side_case(seed):
             else:
                 caps = [rng.randint(1, 3) for _ in range(order - 1)]
                 desc['max_rank'] = [1] + caps + [1]
-                t.ortho(max_rank=[1] + caps + [1])
+                arg = [1] + caps + [1]
+                t.ortho(max_rank=arg)
+                if arg != [1] + caps + [1]:
+                    return 'the per-bond list handed in as max_rank was modified: %s -> %s' % ([1] + caps + [1], arg), desc
     except Exception as e:
         return 'raised %r' % (e,), desc
     if not consistent(t):
